@@ -63,7 +63,7 @@ impl<CS: CLCiphersuite> PoKSignature<CL03<CS>> {
         let min_x = Integer::from(0);
         let max_x = Integer::from(2).pow(CS::lm) - 1;
 
-        let spok = NISPSignaturePoK::nisp5_MultiAttr_generate_proof::<CS>(
+        let mut spok = NISPSignaturePoK::nisp5_MultiAttr_generate_proof::<CS>(
             signature,
             commitment_pk,
             signer_pk,
@@ -110,7 +110,7 @@ impl<CS: CLCiphersuite> PoKSignature<CL03<CS>> {
             );
             proofs_mi.push(ProofOfValue {
                 value: proof_mi_ri,
-                commitment: cmi.clone(),
+                commitment: cmi.without_opening(),
             });
             let r_proof_mi = match CS::RANGEPROOF_ALG {
                 RangeProof::Boudot2000 => Boudot2000RangeProof::prove::<CS::HashAlg>(
@@ -126,6 +126,12 @@ impl<CS: CLCiphersuite> PoKSignature<CL03<CS>> {
 
             r_proofs_mi.push(r_proof_mi);
         }
+
+        // the proof is sent to the verifier: it must not carry the openings of its commitments
+        spok.Cx = spok.Cx.without_opening();
+        spok.Cv = spok.Cv.without_opening();
+        spok.Cw = spok.Cw.without_opening();
+        spok.Ce = spok.Ce.without_opening();
 
         Self::CL03(CL03PoKSignature {
             spok,
@@ -311,7 +317,7 @@ impl<CS: CLCiphersuite> ZKPoK<CL03<CS>> {
             );
             proofs_mi.push(ProofOfValue {
                 value: proof_mi,
-                commitment: cmi.clone(),
+                commitment: cmi.without_opening(),
             });
             match CS::RANGEPROOF_ALG {
                 RangeProof::Boudot2000 => {
@@ -342,7 +348,7 @@ impl<CS: CLCiphersuite> ZKPoK<CL03<CS>> {
                 &signer_pk.b,
                 &signer_pk.N,
             ),
-            commitment: cr.cl03Commitment().to_owned(),
+            commitment: cr.cl03Commitment().without_opening(),
         };
 
         let rproof_r = match CS::RANGEPROOF_ALG {
